@@ -91,61 +91,115 @@ theorem doReq_absent (sub : Bool) (k : Kind) (pl : Payload) (st : St) (ho : st.s
   simp only
   rw [if_neg h2, if_pos h404]
 
-/-- The carry-forward cycle: `Patch(remaining)` computed for the object the server holds, no
-    foreign write, no fault. -/
-theorem quiet_fns_cycle (sub : Bool) (fns : List Fn) (o : Obj) (s : Server) (ho : s.obj = some o) :
-    let m := stageMerge sub ⟨[], fns⟩ Env.quiet ⟨s, [], none⟩ >>= stageJson sub ⟨[], fns⟩ o Env.quiet
-    Holds o.uid o.marked (applyFns fns o).fins m.final.server ∧
-    ((∃ st, m = .ok st) ∨ (∃ st, m = .error (st, .gone))) := by
-  intro m
-  have hm0 : stageMerge sub ⟨[], fns⟩ Env.quiet ⟨s, [], none⟩ = .ok ⟨s, [], none⟩ := by
-    unfold stageMerge stageMergeBody stageMergeStatus bodyPart statusPart
-    cases sub <;> simp [erase, lookup] <;> rfl
-  have hm : m = stageJson sub ⟨[], fns⟩ o Env.quiet ⟨s, [], none⟩ := by
-    show (stageMerge sub ⟨[], fns⟩ Env.quiet ⟨s, [], none⟩ >>= stageJson sub ⟨[], fns⟩ o Env.quiet) = _
-    rw [hm0]; rfl
-  rw [hm]
+/-- a merge-patch, nobody interfering, on a stored object (a marked object without finalizers is
+    never stored): accepted, the server holds the response, identity and finalizers unchanged -/
+theorem doReq_merge_fresh (sub : Bool) (k : Kind) (p : Kvs) (st : St) (o : Obj)
+    (ho : st.server.obj = some o) (hns : ¬ (o.marked = true ∧ o.fins = [])) :
+    ∃ st' F, doReq sub Env.quiet k (.merge p) st = .ok st' ∧ st'.server.obj = some F ∧ st'.fresh = some F ∧
+      F.fins = o.fins ∧ F.uid = o.uid ∧ F.marked = o.marked := by
+  rcases step_cases sub Env.quiet k (.merge p) st.server with (⟨h, _⟩ | ⟨c, h, _⟩) | ⟨_, h, _⟩ | ⟨o', _, ho', ha, _⟩ | ⟨o', new, _, ho', ha, e⟩
+  · simp [Env.quiet] at h
+  · exact absurd rfl h.1
+  · rw [slipped_quiet, ho] at h; cases h
+  · simp [applyPayload] at ha
+  · rw [slipped_quiet] at ho' e
+    rw [ho] at ho'; cases ho'
+    simp only [applyPayload, Option.some.injEq] at ha
+    subst ha
+    have hr : (route sub k.toStatus o { o with body := clean (mergeKvs o.body p) }).fins = o.fins ∧
+        (route sub k.toStatus o { o with body := clean (mergeKvs o.body p) }).uid = o.uid ∧
+        (route sub k.toStatus o { o with body := clean (mergeKvs o.body p) }).marked = o.marked := by
+      unfold route; cases sub <;> cases k.toStatus <;> exact ⟨rfl, rfl, rfl⟩
+    generalize route sub k.toStatus o { o with body := clean (mergeKvs o.body p) } = R at e hr
+    obtain ⟨h1, h2, h3, h4⟩ := put_holds st.server o R ho hr.2.1 hr.2.2
+    rw [hr.1] at h1 h2
+    rcases h1 with ⟨x, hx, hu, hm, hf⟩ | ⟨_, hm, hf⟩
+    · refine ⟨{ server := (st.server.put o R).1, reqs := st.reqs ++ [⟨k, .merge p, some o.uid, 200⟩],
+                fresh := some (st.server.put o R).2 }, x, ?_, hx, ?_, hf, hu, hm⟩
+      · unfold doReq; simp only [e, if_true]
+      · simp only; rw [h4 x hx]
+    · exact absurd ⟨hm, hf⟩ hns
+
+theorem applyFns_fins_congr (fns : List Fn) (a b : Obj) (h : a.fins = b.fins) :
+    (applyFns fns a).fins = (applyFns fns b).fins := by
+  induction fns generalizing a b with
+  | nil => exact h
+  | cons f fs ih =>
+    rw [applyFns_cons, applyFns_cons]
+    apply ih
+    cases f with
+    | block g => simp [Fn.app, h]
+    | allow g => simp [Fn.app, h]
+    | userFin add g => cases add <;> simp [Fn.app, h]
+    | setStatus k v => simp [Fn.app, h]
+
+/-- the merge stage, nobody interfering, on the object the patch was computed for -/
+theorem quiet_merge_stage (sub : Bool) (p : Patch) (orig : Obj) (st : St) (o : Obj)
+    (ho : st.server.obj = some o) (hfr : st.fresh.getD orig = o) (hns : ¬ (o.marked = true ∧ o.fins = [])) :
+    ∃ st' F, stageMerge sub p Env.quiet st = .ok st' ∧ st'.server.obj = some F ∧ st'.fresh.getD orig = F ∧
+      F.fins = o.fins ∧ F.uid = o.uid ∧ F.marked = o.marked := by
+  have h1 : ∃ st1 F1, stageMergeBody sub p Env.quiet st = .ok st1 ∧ st1.server.obj = some F1 ∧
+      st1.fresh.getD orig = F1 ∧ F1.fins = o.fins ∧ F1.uid = o.uid ∧ F1.marked = o.marked := by
+    unfold stageMergeBody
+    split
+    · exact ⟨st, o, rfl, ho, hfr, rfl, rfl, rfl⟩
+    · obtain ⟨st', F, e, hx, hf, a, b, c⟩ := doReq_merge_fresh sub .mergeBody (bodyPart sub p.fields) st o ho hns
+      exact ⟨st', F, e, hx, by rw [hf]; rfl, a, b, c⟩
+  obtain ⟨st1, F1, e1, hx1, hf1, a1, b1, c1⟩ := h1
+  unfold stageMerge
+  rw [e1]
+  show ∃ st' F, stageMergeStatus sub p Env.quiet st1 = .ok st' ∧ _
+  unfold stageMergeStatus
+  split
+  · have hns1 : ¬ (F1.marked = true ∧ F1.fins = []) := by rw [c1, a1]; exact hns
+    obtain ⟨st', F, e, hx, hf, a, b, c⟩ := doReq_merge_fresh sub .mergeStatus [("status", _)] st1 F1 hx1 hns1
+    exact ⟨st', F, e, hx, by rw [hf]; rfl, a.trans a1, b.trans b1, c.trans c1⟩
+  · exact ⟨st1, F1, rfl, hx1, hf1, a1, b1, c1⟩
+
+/-- The JSON stage, nobody interfering, when the server holds exactly the freshest body `F` the
+    client has seen. -/
+theorem quiet_json_stage (sub : Bool) (p : Patch) (orig : Obj) (st : St) (F : Obj)
+    (ho : st.server.obj = some F) (hfr : st.fresh.getD orig = F) :
+    Holds F.uid F.marked (applyFns p.fns F).fins (stageJson sub p orig Env.quiet st).final.server ∧
+    ((∃ st', stageJson sub p orig Env.quiet st = .ok st') ∨ (∃ st', stageJson sub p orig Env.quiet st = .error (st', .gone))) := by
   unfold stageJson
-  simp only [Option.getD_none]
-  obtain ⟨_, hrv, hmk⟩ := applyFns_meta fns o
-  -- the body stage
-  have hbody : ∃ st1, stageJsonBody sub ⟨[], fns⟩ o Env.quiet ⟨s, [], none⟩ = .ok st1 ∧
-      Holds o.uid o.marked (applyFns fns o).fins st1.server ∧
-      (∀ x, st1.server.obj = some x → st1.fresh.getD o = x) := by
+  rw [hfr]
+  have hbody : ∃ st1, stageJsonBody sub p F Env.quiet st = .ok st1 ∧
+      Holds F.uid F.marked (applyFns p.fns F).fins st1.server ∧
+      (∀ x, st1.server.obj = some x → st1.fresh.getD orig = x) := by
     unfold stageJsonBody
-    cases hpl : jsonBodyPayload sub fns o with
+    cases hpl : jsonBodyPayload sub p.fns F with
     | none =>
-      refine ⟨⟨s, [], none⟩, rfl, ?_, ?_⟩
-      · have hnc : finsChanged o (applyFns fns o) = false := by
+      refine ⟨st, rfl, ?_, ?_⟩
+      · have hnc : finsChanged F (applyFns p.fns F) = false := by
           unfold jsonBodyPayload at hpl
           simp only at hpl
-          cases hc : finsChanged o (applyFns fns o) with
+          cases hc : finsChanged F (applyFns p.fns F) with
           | false => rfl
           | true => simp [hc] at hpl
-        have : (applyFns fns o).fins = o.fins := by
+        have : (applyFns p.fns F).fins = F.fins := by
           unfold finsChanged at hnc
           simpa using hnc
         rw [this]
-        exact Or.inl ⟨o, ho, rfl, rfl, rfl⟩
+        exact Or.inl ⟨F, ho, rfl, rfl, rfl⟩
       · intro x hx
-        simp only at hx
-        rw [ho] at hx; cases hx; rfl
+        rw [ho] at hx; cases hx; exact hfr
     | some pl =>
       obtain ⟨fi, sb, e, _, hfi, hfc⟩ := jsonBodyPayload_shape hpl
       subst e
-      obtain ⟨st1, h1, h2, h3⟩ := doReq_json_fresh sub .jsonBody fi sb ⟨s, [], none⟩ o ho
+      obtain ⟨st1, h1, h2, h3⟩ := doReq_json_fresh sub .jsonBody fi sb st F ho
       refine ⟨st1, h1, ?_, ?_⟩
-      · have : finsAfter sub .jsonBody fi o = (applyFns fns o).fins := by
+      · have : finsAfter sub .jsonBody fi F = (applyFns p.fns F).fins := by
           unfold finsAfter
           simp only [Kind.toStatus, Bool.and_false, Bool.false_eq_true, if_false]
           rcases hfi with rfl | rfl
-          · have hnc : finsChanged o (applyFns fns o) = false := by
-              cases hc : finsChanged o (applyFns fns o) with
+          · have hnc : finsChanged F (applyFns p.fns F) = false := by
+              cases hc : finsChanged F (applyFns p.fns F) with
               | false => rfl
               | true => have := hfc hc; cases this
             unfold finsChanged at hnc
             simp only [Option.getD_none]
-            have : (applyFns fns o).fins = o.fins := by simpa using hnc
+            have : (applyFns p.fns F).fins = F.fins := by simpa using hnc
             exact this.symm
           · rfl
         rw [← this]; exact h2
@@ -153,11 +207,11 @@ theorem quiet_fns_cycle (sub : Bool) (fns : List Fn) (o : Obj) (s : Server) (ho 
         rw [h3 x hx]; rfl
   obtain ⟨st1, hb1, hb2, hb3⟩ := hbody
   rw [hb1]
-  show Holds _ _ _ (stageJsonStatus sub ⟨[], fns⟩ o o Env.quiet st1).final.server ∧
-    ((∃ st, stageJsonStatus sub ⟨[], fns⟩ o o Env.quiet st1 = .ok st) ∨
-     (∃ st, stageJsonStatus sub ⟨[], fns⟩ o o Env.quiet st1 = .error (st, .gone)))
+  show Holds _ _ _ (stageJsonStatus sub p F orig Env.quiet st1).final.server ∧
+    ((∃ st', stageJsonStatus sub p F orig Env.quiet st1 = .ok st') ∨
+     (∃ st', stageJsonStatus sub p F orig Env.quiet st1 = .error (st', .gone)))
   unfold stageJsonStatus
-  cases hsv : jsonStatusValue sub fns o with
+  cases hsv : jsonStatusValue sub p.fns F with
   | none => exact ⟨hb2, Or.inl ⟨st1, rfl⟩⟩
   | some v =>
     have hsub : sub = true := by
@@ -166,7 +220,7 @@ theorem quiet_fns_cycle (sub : Bool) (fns : List Fn) (o : Obj) (s : Server) (ho 
     simp only
     cases hobj : st1.server.obj with
     | none =>
-      obtain ⟨st', e, hs'⟩ := doReq_absent sub .jsonStatus (.json (st1.fresh.getD o).rv none (some v)) st1 hobj
+      obtain ⟨st', e, hs'⟩ := doReq_absent sub .jsonStatus (.json (st1.fresh.getD orig).rv none (some v)) st1 hobj
       rw [e]
       refine ⟨?_, Or.inr ⟨st', rfl⟩⟩
       show Holds _ _ _ st'.server
@@ -186,5 +240,76 @@ theorem quiet_fns_cycle (sub : Bool) (fns : List Fn) (o : Obj) (s : Server) (ho 
       · rw [hobj] at hx'; cases hx'
         rw [hu, hmm, hff] at h2; exact h2
       · rw [hobj] at hn; cases hn
+
+/-- A whole call, nobody interfering, computed for the object the server holds: any fields, any fns. -/
+theorem quiet_call (sub : Bool) (p : Patch) (o : Obj) (s : Server) (ho : s.obj = some o)
+    (hns : ¬ (o.marked = true ∧ o.fins = [])) :
+    let m := stageMerge sub p Env.quiet ⟨s, [], none⟩ >>= stageJson sub p o Env.quiet
+    Holds o.uid o.marked (applyFns p.fns o).fins m.final.server ∧
+    ((∃ st, m = .ok st) ∨ (∃ st, m = .error (st, .gone))) := by
+  intro m
+  obtain ⟨st1, F, e, hx, hf, a, b, c⟩ := quiet_merge_stage sub p o ⟨s, [], none⟩ o ho rfl hns
+  have hm : m = stageJson sub p o Env.quiet st1 := by
+    show (stageMerge sub p Env.quiet ⟨s, [], none⟩ >>= stageJson sub p o Env.quiet) = _
+    rw [e]; rfl
+  rw [hm]
+  have := quiet_json_stage sub p o st1 F hx hf
+  rw [b, c, applyFns_fins_congr p.fns F o a] at this
+  exact this
+
+/-! ## unfoldings of the carry rule (corollaries, not counted as property theorems) -/
+
+/-- What is carried: after a call that returned a remaining patch, `process_resource_event` keeps
+    exactly the handler-supplied fns of it, in order (the framework's own finalizer edits are dropped:
+    they are decided anew in every cycle), `_daemon/_timer` keep all of it. -/
+theorem carried_after_conflict (sub : Bool) (mem : Option (List Fn)) (fields : Kvs) (fns : List Fn)
+    (orig : Obj) (env : Env) (s : Server) (rem : Option (List Fn)) (b : Option Obj)
+    (hne : (nextPatch mem fields fns).isEmpty = false)
+    (hout : (patchObj sub (nextPatch mem fields fns) orig env s).outcome = .ok rem b) :
+    (cycle sub mem fields fns orig env s).2 = carried rem ∧
+    (daemonCycle sub mem fields fns orig env s).2 = rem ∧
+    (∀ l, carried rem = some l → l ≠ [] ∧ ∀ f, f ∈ l ↔ (∃ r, rem = some r ∧ f ∈ r) ∧ f.isFramework = false) := by
+  refine ⟨?_, ?_, ?_⟩
+  · simp [cycle, cycleOf, hne, hout, memoryAfter]
+  · simp [daemonCycle, cycleOf, hne, hout, memoryAfter]
+  · intro l hl
+    cases rem with
+    | none => simp [carried] at hl
+    | some r =>
+      simp only [carried] at hl
+      split at hl
+      · cases hl
+      · rename_i hne'
+        cases hl
+        refine ⟨by intro e; rw [e] at hne'; simp at hne', ?_⟩
+        intro f
+        simp [List.mem_filter]
+
+/-- The framework's own finalizer edits never stay in the memory of `process_resource_event`,
+    whatever happened to the call (conflict, 404, exception, success). -/
+theorem framework_fns_not_carried (sub : Bool) (mem : Option (List Fn)) (fields : Kvs) (fns : List Fn)
+    (orig : Obj) (env : Env) (s : Server)
+    (hmem : ∀ l, mem = some l → ∀ f ∈ l, f.isFramework = false) :
+    ∀ l, (cycle sub mem fields fns orig env s).2 = some l → ∀ f ∈ l, f.isFramework = false := by
+  intro l hl f hf
+  unfold cycle cycleOf at hl
+  simp only at hl
+  split at hl
+  · cases hl
+  · unfold memoryAfter at hl
+    split at hl
+    · rename_i rem _ _
+      simp only [Bool.false_eq_true, if_false] at hl
+      cases rem with
+      | none => simp [carried] at hl
+      | some r =>
+        simp only [carried] at hl
+        split at hl
+        · cases hl
+        · cases hl
+          simp [List.mem_filter] at hf
+          exact hf.2
+    · cases hl
+    · exact hmem l hl f hf
 
 end Kopf.C08
